@@ -86,6 +86,37 @@ def dirty_print(rng, regions=None):
     return steps
 
 
+def arc_tail(rng):
+    """
+    The end of a probe program: a point-sized region is registered (during the print, through the
+    API) half way between two consecutive points of the 1 mm interpolation of an arc, and the arc
+    is commanded.  Both plugins receive the same requests; whatever a previous print left behind
+    in the arc planning shows as a different decision.
+    """
+    import math
+    ccw = rng.random() < 0.5
+    sgn = 1 if ccw else -1
+    radius, sweep = rng.uniform(15, 45), rng.uniform(0.6, 2.2)
+    a0 = rng.uniform(0, 2 * math.pi)
+    cx, cy = rng.uniform(70, 130), rng.uniform(70, 130)
+    sx, sy = round(cx + radius * math.cos(a0), 3), round(cy + radius * math.sin(a0), 3)
+    i, j = round(cx - sx, 3), round(cy - sy, 3)
+    cx, cy, radius, a0 = sx + i, sy + j, math.hypot(i, j), math.atan2(-j, -i)
+    ex = round(cx + radius * math.cos(a0 + sgn * sweep), 3)
+    ey = round(cy + radius * math.sin(a0 + sgn * sweep), 3)
+    sweep = (sgn * (math.atan2(ey - cy, ex - cx) - a0)) % (2 * math.pi)
+    count = int(math.ceil(radius * sweep))
+    mid = a0 + sgn * (rng.randrange(count) + 0.5) * sweep / count
+    disc = {"type": "CircularRegion", "id": "arc-probe",
+            "cx": round(cx + radius * math.cos(mid), 4), "cy": round(cy + radius * math.sin(mid), 4),
+            "r": 0.2}
+    # (no G21: the length unit is what print-started left, or what the probe chose)
+    return [("g", "G90", {}), ("api", "addExcludeRegion", disc, False),
+            ("g", "G1 X%r Y%r F3000" % (sx, sy), {}),
+            ("g", "%s X%r Y%r I%r J%r" % ("G3" if ccw else "G2", ex, ey, i, j), {}),
+            ("g", "G1 X5 Y5", {})]
+
+
 def run(tier, seed):
     from harness import pluginfam
     started = time.time()
@@ -98,7 +129,7 @@ def run(tier, seed):
                                          exact_only=False, g90e=(index % 2 == 0)))
     mhists, mcs = pluginfam.model_guided("C10", tier, seed)
     hists = mhists + hists
-    pairs, used_traces, probes, dirts = [], [], [], []
+    pairs, used_traces, probes, dirts, full_traces = [], [], [], [], []
     import random
     for index, hist in enumerate(hists):
         rng = random.Random(seed * 31 + index)
@@ -122,6 +153,8 @@ def run(tier, seed):
             if first:
                 probe = list(probe)
                 probe[first[0]] = rng.choice([("g", "G28 Z", {}), ("g", "G90", {})])
+        tail = arc_tail(rng) if rng.random() < 0.4 else []
+        probe = list(probe) + tail
         dirt = dirty_print(rng, getattr(hist, "regions_view", []))
         if rng.random() < 0.5:
             # scripts configured for the whole history (applied by the SettingsUpdated event that
@@ -135,12 +168,17 @@ def run(tier, seed):
         utrace = record.run_plugin_history(used, index + 1)
         ftrace = record.run_plugin_history(fresh_history(utrace, hist, probe, dirt), index + 1,
                                            keep_state=False)
-        used_traces.append(utrace)
+        # (the white-box leg follows the trace up to the arc tail: Filter.tla has no account of
+        # an arc against a region narrower than the interpolation step)
+        used_traces.append(dict(utrace, ev=utrace["ev"][:len(utrace["ev"]) - len(tail)]))
+        full_traces.append(utrace)
         events = []
         for ua, fb in zip(utrace["ev"][-len(probe):], ftrace["ev"][-len(probe):]):
             events.append({"txt": ua.get("in", {}).get("txt", ""),
-                           "a": {"res": ua["res"], "out": [o["txt"] for o in ua["out"]]},
-                           "b": {"res": fb["res"], "out": [o["txt"] for o in fb["out"]]}})
+                           "a": {"res": ua.get("res", "status %s" % ua.get("status")),
+                                 "out": [o["txt"] for o in ua.get("out", [])]},
+                           "b": {"res": fb.get("res", "status %s" % fb.get("status")),
+                                 "out": [o["txt"] for o in fb.get("out", [])]}})
         pairs.append({"id": index + 1, "ev": events})
         probes.append(probe)
     verdicts = common.validate_traces("TraceC10", "TraceC10.cfg", pairs, "c10")
@@ -159,7 +197,7 @@ def run(tier, seed):
         dirty = any(e["ev"] == "g" and e["pst"]["active"]
                     and (e["res"] in ("suppress", "list")
                          or e["in"]["code"] in ("G91", "G20", "G92", "M206", "G10"))
-                    for e in used_traces[index]["ev"][:-len(probes[index]) - 2])
+                    for e in full_traces[index]["ev"][:-len(probes[index]) - 2])
         if dirty:
             nontrivial.add(json.dumps([list(s) for s in hist.steps], sort_keys=True, default=str))
         if verdict["c"] != "ok":
